@@ -1,7 +1,7 @@
 (* C11 -- decoding untrusted bytes fails cleanly: no crash, no over-read.
    Statements only; proofs in Codec/DecodeProofs.v, CollProofs.v, ReplyProofs.v. *)
 From Coq Require Import List NArith ZArith Bool.
-From SliceV Require Import Base.Bytes Base.Utf8 Codec.Wire Codec.WireProofs Codec.CollProofs Codec.Typed Codec.TypedProofs Codec.DecodeProofs Codec.Reply Codec.ReplyProofs.
+From SliceV Require Import Base.Bytes Base.Utf8 Codec.Wire Codec.WireProofs Codec.CollProofs Codec.Typed Codec.TypedProofs Codec.DecodeProofs Codec.Reply Codec.ReplyProofs Codec.PrefixProofs.
 Import ListNotations.
 Open Scope N_scope.
 
@@ -44,6 +44,13 @@ Theorem C11_reply_wellformed : forall bs fs ds r, dec_reply bs = DOk (fs, ds) r 
   Forall (fun f => utf8_valid (gf_path f) = true /\ utf8_valid (gf_contents f) = true) fs /\
   Forall (fun d => gd_level d <= 2 /\ utf8_valid (gd_message d) = true) ds.
 Proof. exact reply_files_wellformed. Qed.
+(* a buffer cut anywhere inside an encoded value is an error, never a shorter value; and what is decoded does not depend on
+   what follows it in the buffer (for every decodable type, nested to any depth) *)
+Theorem C11_truncation_rejected : forall t, wf_ty t -> forall bs v r, dec_val t bs = DOk v r ->
+  forall k, (k < length bs - length r)%nat -> exists e, dec_val t (firstn k bs) = DErr e /\ e <> EFuel.
+Proof. exact truncated_value_rejected. Qed.
+Theorem C11_decoded_value_independent_of_rest : forall t bs v r x, dec_val t bs = DOk v r -> dec_val t (bs ++ x) = DOk v (r ++ x).
+Proof. exact decoded_value_independent_of_rest. Qed.
 
 Example C11_instances :
   dec_val (TDict (PU 1) (TP PBool)) [8; 5; 1; 5; 0] = DErr EDupKey /\
